@@ -280,7 +280,7 @@ theorem transport_maximum_principle_inflow (P : Pb) (hwf : WF P.T) (nc : Nat) (d
     (hV : ∀ i, i < nc → 0 < V i) (hdt : 0 ≤ dt)
     (hdiv : ∀ i, i < nc → divAt P.T P.q i = 0)
     (hcfl : ∀ i, i < nc → dt * outflow P.T P.q i ≤ V i)
-    (hneu : ∀ f, P.isNeu f = true → P.q f = 0 ∧ bv f = 0)
+    (hneu : ∀ i ∈ P.T, P.isNeu i.face = true → P.q i.face = 0 ∧ bv i.face = 0)
     (hnoerr : ∀ i ∈ P.T, P.q i.face ≠ 0 → upErr P i.face = false)
     (hbv : ∀ i ∈ P.T, inflowDir P i.face = true → P.q i.face ≠ 0 → m ≤ bv i.face ∧ bv i.face ≤ M)
     (hc : ∀ j, j < nc → m ≤ c j ∧ c j ≤ M) :
@@ -306,7 +306,7 @@ theorem transport_maximum_principle (P : Pb) (hwf : WF P.T) (nc : Nat) (dt : Rat
     (hdiv : ∀ i, i < nc → divAt P.T P.q i = 0)
     (hcfl : ∀ i, i < nc → dt * outflow P.T P.q i ≤ V i)
     (hnoflow : ∀ i ∈ P.T, ¬ Interior P.T i.face → P.q i.face = 0)
-    (hneu : ∀ f, P.isNeu f = true → P.q f = 0 ∧ bv f = 0)
+    (hneu : ∀ i ∈ P.T, P.isNeu i.face = true → P.q i.face = 0 ∧ bv i.face = 0)
     (hc : ∀ j, j < nc → m ≤ c j ∧ c j ≤ M) :
     ∀ i, i < nc → m ≤ step P dt V bv c i ∧ step P dt V bv c i ≤ M := by
   have hint : ∀ i ∈ P.T, P.q i.face ≠ 0 → ∃ j, upstream P i.face = some j := by
@@ -330,7 +330,7 @@ theorem transport_maximum_principle_iter (P : Pb) (hwf : WF P.T) (nc : Nat) (dt 
     (hV : ∀ i, i < nc → 0 < V i) (hdt : 0 ≤ dt)
     (hdiv : ∀ i, i < nc → divAt P.T P.q i = 0)
     (hcfl : ∀ i, i < nc → dt * outflow P.T P.q i ≤ V i)
-    (hneu : ∀ f, P.isNeu f = true → P.q f = 0 ∧ bv f = 0)
+    (hneu : ∀ i ∈ P.T, P.isNeu i.face = true → P.q i.face = 0 ∧ bv i.face = 0)
     (hnoerr : ∀ i ∈ P.T, P.q i.face ≠ 0 → upErr P i.face = false)
     (hbv : ∀ i ∈ P.T, inflowDir P i.face = true → P.q i.face ≠ 0 → m ≤ bv i.face ∧ bv i.face ≤ M)
     (n : Nat) (c : Nat → Rat) (hc : ∀ j, j < nc → m ≤ c j ∧ c j ≤ M) :
@@ -560,6 +560,114 @@ theorem md_transport_conserves_iter (M : Md) (hwf : WF M.P.T) (nf nc : Nat) (dt 
     show sumTo nc (fun i => V i * mdIter M dt V bv n (mdStep M dt V bv c) i) = _
     rw [ih, md_transport_conserves M hwf nf nc dt V bv c hcell hface hV hclosed hsc hpf]
 
+/-! ### the hypotheses as decidable input conditions (evaluated by the driver on every case) -/
+
+/-- `consHypB` (well-formed grid, indices in range, every face interior or Neumann with zero data, nonzero
+    volumes) is a Boolean the driver evaluates; when it answers `true` the total amount is conserved. -/
+theorem transport_conserves_checked (P : Pb) (nf nc : Nat) (dt : Rat) (V bv c : Nat → Rat)
+    (h : consHypB P nf nc V bv = true) :
+    sumTo nc (fun i => V i * step P dt V bv c i) = sumTo nc (fun i => V i * c i) := by
+  simp only [consHypB, Bool.and_eq_true] at h
+  obtain ⟨⟨⟨h1, h2⟩, h3⟩, h4⟩ := h
+  have hb : ∀ i ∈ P.T, i.face < nf ∧ i.cell < nc := by
+    intro i hi
+    have := (List.all_eq_true.mp h2) i hi
+    simpa using this
+  apply transport_conserves P h1 nf nc dt V bv c (fun i hi => (hb i hi).2) (fun i hi => (hb i hi).1)
+  · intro i hi
+    have := (List.all_eq_true.mp h4) i (List.mem_range.mpr hi)
+    simpa using this
+  · intro f hf
+    have := (List.all_eq_true.mp h3) f (List.mem_range.mpr hf)
+    simp only [Bool.or_eq_true, Bool.and_eq_true, decide_eq_true_eq] at this
+    exact this
+
+/-- `mpHypB` = all hypotheses of the maximum principle (divergence-free, CFL, Neumann faces without flux and
+    data, flux enters only through Dirichlet faces with data in `[m, M]`, cell values in `[m, M]`). -/
+theorem transport_maximum_principle_checked (P : Pb) (nc : Nat) (dt : Rat) (V bv c : Nat → Rat) (m M : Rat)
+    (h : mpHypB P nc dt V bv c m M = true) :
+    ∀ i, i < nc → m ≤ step P dt V bv c i ∧ step P dt V bv c i ≤ M := by
+  simp only [mpHypB, Bool.and_eq_true] at h
+  obtain ⟨⟨⟨⟨h1, h2⟩, h3⟩, h4⟩, h5⟩ := h
+  have hcell : ∀ i ∈ P.T, i.cell < nc := by
+    intro i hi; simpa using (List.all_eq_true.mp h2) i hi
+  have hdt : 0 ≤ dt := by simpa using h3
+  have hc4 : ∀ i, i < nc → (0 < V i ∧ divAt P.T P.q i = 0 ∧ dt * outflow P.T P.q i ≤ V i ∧ m ≤ c i ∧ c i ≤ M) := by
+    intro i hi
+    have := (List.all_eq_true.mp h4) i (List.mem_range.mpr hi)
+    simp only [Bool.and_eq_true, decide_eq_true_eq] at this
+    exact ⟨this.1.1.1.1, this.1.1.1.2, this.1.1.2, this.1.2, this.2⟩
+  have h5' : ∀ i ∈ P.T,
+      ((P.isNeu i.face = false ∨ (P.q i.face = 0 ∧ bv i.face = 0)) ∧
+       (P.q i.face = 0 ∨ (upErr P i.face = false ∧ (inflowDir P i.face = false ∨ (m ≤ bv i.face ∧ bv i.face ≤ M))))) := by
+    intro i hi
+    have := (List.all_eq_true.mp h5) i hi
+    simpa [Bool.and_eq_true, Bool.or_eq_true] using this
+  apply transport_maximum_principle_inflow P h1 nc dt V bv c m M hcell
+    (fun i hi => (hc4 i hi).1) hdt (fun i hi => (hc4 i hi).2.1) (fun i hi => (hc4 i hi).2.2.1)
+  · intro i hi hn
+    rcases (h5' i hi).1 with h | h
+    · rw [h] at hn; cases hn
+    · exact h
+  · intro i hi hq
+    rcases (h5' i hi).2 with h | h
+    · exact absurd h hq
+    · exact h.1
+  · intro i hi hin hq
+    rcases (h5' i hi).2 with h | h
+    · exact absurd h hq
+    · rcases h.2 with h' | h'
+      · rw [h'] at hin; cases hin
+      · exact h'
+  · exact fun j hj => ⟨(hc4 j hj).2.2.2.1, (hc4 j hj).2.2.2.2⟩
+
+theorem md_transport_conserves_checked (M : Md) (nf nc : Nat) (dt : Rat) (V bv c : Nat → Rat)
+    (h1 : consHypB M.P nf nc V bv = true) (h2 : mdHypB M nc = true) :
+    sumTo nc (fun i => V i * mdStep M dt V bv c i) = sumTo nc (fun i => V i * c i) := by
+  simp only [consHypB, Bool.and_eq_true] at h1
+  obtain ⟨⟨⟨a1, a2⟩, a3⟩, a4⟩ := h1
+  have hb : ∀ i ∈ M.P.T, i.face < nf ∧ i.cell < nc := by
+    intro i hi; simpa using (List.all_eq_true.mp a2) i hi
+  have hm : ∀ m, m < M.nm → M.sc m < nc ∧ cntPos M.P.T (M.pf m) + cntNeg M.P.T (M.pf m) = 1 := by
+    intro m hm
+    have := (List.all_eq_true.mp h2) m (List.mem_range.mpr hm)
+    simpa using this
+  apply md_transport_conserves M a1 nf nc dt V bv c (fun i hi => (hb i hi).2) (fun i hi => (hb i hi).1)
+  · intro i hi; simpa using (List.all_eq_true.mp a4) i (List.mem_range.mpr hi)
+  · intro f hf
+    have := (List.all_eq_true.mp a3) f (List.mem_range.mpr hf)
+    simp only [Bool.or_eq_true, Bool.and_eq_true, decide_eq_true_eq] at this
+    exact this
+  · exact fun m h => (hm m h).1
+  · exact fun m h => (hm m h).2
+
+/-! ### `Upwind.darcy_flux` produces divergence-free fluxes -/
+
+/-- The flux `darcy_flux` computes for a constant velocity `beta` is divergence-free on every grid whose
+    cells are geometrically closed (`Σ_faces sign · normal = 0` per cell, the discrete divergence theorem
+    of C19), provided the face aperture is the same on all faces (in particular without apertures). This
+    discharges the "divergence-free flux" hypothesis of the maximum principle for uniform flow fields. -/
+theorem darcy_flux_divergence_free (T : Topo) (nx ny nz : Nat → Rat) (bx by' bz a : Rat)
+    (ap : Option (Nat → Rat)) (hap : ∀ i ∈ T, faceAperture T ap i.face = a) (k : Nat)
+    (hx : divAt T nx k = 0) (hy : divAt T ny k = 0) (hz : divAt T nz k = 0) :
+    divAt T (darcyFlux T nx ny nz bx by' bz ap) k = 0 := by
+  unfold divAt at hx hy hz ⊢
+  have e : ∀ i ∈ T, (if i.cell = k then i.sgn * darcyFlux T nx ny nz bx by' bz ap i.face else 0)
+      = (if i.cell = k then i.sgn * nx i.face else 0) * (a * bx)
+        + (if i.cell = k then i.sgn * ny i.face else 0) * (a * by')
+        + (if i.cell = k then i.sgn * nz i.face else 0) * (a * bz) := by
+    intro i hi
+    unfold darcyFlux
+    rw [hap i hi]
+    by_cases h : i.cell = k
+    · simp only [if_pos h]; ring
+    · simp [h]
+  rw [sumOver_congr T _ _ e, sumOver_add, sumOver_add, sumOver_mul_right, sumOver_mul_right,
+    sumOver_mul_right, hx, hy, hz]
+  ring
+
+theorem faceAperture_none (T : Topo) (f : Nat) : faceAperture T none f = 1 := rfl
+
 /-! ### non-vacuity: concrete data
 
 `T3` = `CartGrid(3)` in 1-d (faces 0..3, cells 0..2, normals pointing right): the stored entries of
@@ -620,7 +728,7 @@ example : ∀ i, i < 4 → (-3 : Rat) ≤ step Pring (1 / 2) (fun _ => 1) (fun _
     step Pring (1 / 2) (fun _ => 1) (fun _ => 0) cRing i ≤ 5 :=
   transport_maximum_principle Pring (by decide +kernel) 4 (1 / 2) (fun _ => 1) (fun _ => 0) cRing (-3) 5
     (by decide +kernel) (by intro i _; norm_num) (by norm_num) (by decide +kernel) (by decide +kernel)
-    (by decide +kernel) (by intro f h; simp [Pring] at h) (by decide +kernel)
+    (by decide +kernel) (by decide +kernel) (by decide +kernel)
 
 /-- uniform flow to the right through the 1-d grid, Dirichlet at both ends, inflow datum 4 -/
 def Pthru : Pb := ⟨T3, fun _ => 1, fun f => f = 0 ∨ f = 3, fun _ => false⟩
@@ -631,7 +739,7 @@ example : ∀ i, i < 3 → (1 : Rat) ≤ step Pthru (1 / 2) (fun _ => 1) (fun _ 
     step Pthru (1 / 2) (fun _ => 1) (fun _ => 4) cThru i ≤ 4 :=
   transport_maximum_principle_inflow Pthru (by decide +kernel) 3 (1 / 2) (fun _ => 1) (fun _ => 4) cThru 1 4
     (by decide +kernel) (by intro i _; norm_num) (by norm_num) (by decide +kernel) (by decide +kernel)
-    (by intro f h; simp [Pthru] at h) (by decide +kernel) (by decide +kernel) (by decide +kernel)
+    (by decide +kernel) (by decide +kernel) (by decide +kernel) (by decide +kernel)
 
 example : (List.range 3).map (step Pthru (1 / 2) (fun _ => 1) (fun _ => 4) cThru) = [5 / 2, 3 / 2, 5 / 2] := by
   decide +kernel
@@ -684,5 +792,22 @@ example : sumTo 3 (fun i => 1 * mdStep Mex (1 / 4) (fun _ => 1) (fun _ => 0) cMd
 
 example : traceVal Tmd cMd 1 = cMd 0 :=
   traceVal_fracture_face Tmd (by decide +kernel) cMd ⟨1, 0, 1⟩ (by decide +kernel) (by decide +kernel) (by decide +kernel)
+
+/-! the checkers answer `true` on the concrete data above, and `false` when a hypothesis fails -/
+example : consHypB Pneu 4 3 (fun i => (i + 1 : Rat)) (fun _ => 0) = true := by decide +kernel
+example : consHypB Pthru 4 3 (fun _ => 1) (fun _ => 0) = false := by decide +kernel      -- Dirichlet ends: open
+example : mpHypB Pring 4 (1 / 2) (fun _ => 1) (fun _ => 0) cRing (-3) 5 = true := by decide +kernel
+example : mpHypB Pthru 3 (1 / 2) (fun _ => 1) (fun _ => 4) cThru 1 4 = true := by decide +kernel
+example : mpHypB Pthru 3 2 (fun _ => 1) (fun _ => 4) cThru 1 4 = false := by decide +kernel  -- CFL violated
+example : mdHypB Mex 3 = true ∧ consHypB Mex.P 4 3 (fun _ => 1) (fun _ => 0) = true := by decide +kernel
+
+/-- unit normals of the 1-d grid `T3` (pointing right): `darcy_flux` with `beta = (5/2, 7, 0)` -/
+example : (List.range 4).map (darcyFlux T3 (fun _ => 1) (fun _ => 0) (fun _ => 0) (5 / 2) 7 0 none) = [5 / 2, 5 / 2, 5 / 2, 5 / 2] := by
+  decide +kernel
+example : ∀ k, k < 3 → divAt T3 (darcyFlux T3 (fun _ => 1) (fun _ => 0) (fun _ => 0) (5 / 2) 7 0 none) k = 0 :=
+  fun k _ => darcy_flux_divergence_free T3 _ _ _ _ _ _ 1 none (fun _ _ => rfl) k
+    (by unfold divAt T3; simp; split <;> (try split) <;> (try split) <;> norm_num) (by simp [divAt, T3]) (by simp [divAt, T3])
+-- with cell apertures 2, 4, 6 the face apertures are the means over the adjacent cells
+example : (List.range 4).map (faceAperture T3 (some (fun c => (2 * c + 2 : Rat)))) = [2, 3, 5, 6] := by decide +kernel
 
 end PorepyVerif.C17
